@@ -71,26 +71,26 @@ def asm_one(item):
         _init()
     fn = _mn.asm_att if syn == 'att' else _mn.asm
     old = signal.signal(signal.SIGALRM, irlib._alarm)
-    signal.alarm(5)
+    irlib.arm(5)
     try:
         r = fn(text)
-        signal.alarm(0)
+        irlib.disarm()
         if isinstance(r, list) and all(isinstance(x, bytes) for x in r):
             return {'st': 'list', 'c': [x.hex() for x in r]}
         return {'st': 'other', 'c': [], 'exc': {'exc': type(r).__name__, 'func': 'return value', 'line': repr(r)[:80]}}
     except irlib._TO:
         return {'st': 'timeout', 'c': []}
     except ValueError as x:
-        signal.alarm(0)
+        irlib.disarm()
         return {'st': 'reject', 'c': [], 'exc': irlib.exc_key(x)}
     except RecursionError:
-        signal.alarm(0)
+        irlib.disarm()
         return {'st': 'internal', 'c': [], 'exc': {'exc': 'RecursionError', 'func': '', 'line': ''}}
     except Exception as x:
-        signal.alarm(0)
+        irlib.disarm()
         return {'st': 'internal', 'c': [], 'exc': irlib.exc_key(x)}
     finally:
-        signal.alarm(0)
+        irlib.disarm()
         signal.signal(signal.SIGALRM, old)
 
 
@@ -187,7 +187,7 @@ def roundtrip_one(hexb):
     b = bytes.fromhex(hexb)
     r = {'st': 'absent', 'len': 0, 'text': '', 'att': '', 'attst': 'none', 'exc': None}
     old = signal.signal(signal.SIGALRM, irlib._alarm)
-    signal.alarm(5)
+    irlib.arm(5)
     try:
         try:
             ins = _mn.dis(b)
@@ -212,7 +212,7 @@ def roundtrip_one(hexb):
             r['attst'] = 'exc'
             r['attexc'] = irlib.exc_key(x)
     finally:
-        signal.alarm(0)
+        irlib.disarm()
         signal.signal(signal.SIGALRM, old)
     r['asm'] = asm_one(('intel', r['text']))
     if r['attst'] == 'ok':
